@@ -53,6 +53,12 @@ def sub_data(spec, sub, lv, bid, glo, ghi, k):
             tot = sum(raw(kk) for kk in range(4, 4 + spec["nspec"]))
             drift = 1.0 + 5e-6 * (1 + (np.arange(n) % 3 - 1) * 0.5)
             return (raw(k) / tot * drift).reshape(shape, order="F")
+        if spec.get("undershoot") and k == 4 + spec["nspec"] - 1:
+            # the last species undershoots in some cells (small negative mass fractions, as an advection scheme leaves them):
+            # they are rescaled like every other value (the sum over the species stays positive)
+            v = raw(k)
+            v[::3] = -v[::3] / 16.0
+            return v.reshape(shape, order="F")
         # positive mass fractions, deliberately not normalised
         return raw(k).reshape(shape, order="F")
     return (r.randint(-512, 513, size=n).astype("float64") / 8.0 + subi).reshape(shape, order="F")
